@@ -51,44 +51,69 @@ fn lifecycle(w: &World, rec: &LogRec, acc: &mut Acc) -> Vec<Finding> {
                 }
             }
         }
-        Op::Revive { obj, .. } => {
+        Op::Revive { obj, also, .. } => {
+            let targets: Vec<Uuid> = std::iter::once(obj.uuid()).chain(also.iter().map(|o| o.uuid())).collect();
             let u = obj.uuid();
             let before = state(prev, &u);
             if rec.ok && rec.changed {
                 acc.count(&format!("lifecycle.revive_accepted_from_{before}"));
-                if before != "recycled" {
-                    f.push((format!("c26/revive-accepted-for-{before}-entry"), format!("{u}")));
-                }
-                if state(now, &u) != "live" {
-                    f.push(("c26/revived-entry-not-live".into(), format!("{u} is {}", state(now, &u))));
-                } else if before == "recycled" {
-                    // direct memberships of groups that still exist come back
-                    let was = mon::uuids_of(&prev.entries[&u], "recycled_directmemberof");
-                    for g in was {
-                        let Some(ge) = now.entries.get(&g) else { continue };
-                        if !srv::is_live(ge) || srv::dump_classes(ge).iter().any(|c| c == "dyngroup") {
-                            continue;
-                        }
-                        acc.count("lifecycle.membership_to_restore");
-                        if !mon::uuids_of(ge, "member").contains(&u) {
-                            f.push(("c26/direct-membership-not-restored-on-revive".into(), format!("{u} was a direct member of live group {g} when deleted; after revive the group does not list it")));
-                        }
-                    }
-                    // cascade-deleted dependents come back
-                    for (cu, ce) in &prev.entries {
-                        if srv::is_recycled(ce) && srv::dump_strs(ce, "cascade_deleted").iter().any(|s| s == &u.to_string()) {
-                            acc.count("lifecycle.dependent_to_restore");
-                            if state(now, cu) != "live" {
-                                f.push(("c26/dependent-not-revived-with-its-owner".into(), format!("dependent {cu} is {} after {u} was revived", state(now, cu))));
-                            }
-                        }
-                    }
+                if also.is_some() {
+                    acc.count("lifecycle.revive_request_naming_two_entries");
                 }
             } else if before == "tombstone" {
                 acc.count("lifecycle.revive_of_tombstone_refused");
             }
-            if before == "tombstone" && state(now, &u) == "live" {
-                f.push(("c26/tombstone-revived".into(), format!("{u}")));
+            // everything that is live now and was not before
+            let revived: BTreeSet<Uuid> = now.entries.keys().filter(|x| state(now, x) == "live" && state(prev, x) != "live" && state(prev, x) != "absent").cloned().collect();
+            if revived.len() >= 2 {
+                acc.count("lifecycle.several_entries_revived_by_one_request");
+            }
+            for x in &revived {
+                let bx = state(prev, x);
+                if bx != "recycled" {
+                    f.push((format!("c26/revive-accepted-for-{bx}-entry"), format!("{x}")));
+                    continue;
+                }
+                // asked for, or a cascade-deleted dependent of something revived with it
+                let dep_of: Vec<String> = srv::dump_strs(&prev.entries[x], "cascade_deleted");
+                if !targets.contains(x) && !dep_of.iter().any(|o| revived.iter().any(|y| &y.to_string() == o)) {
+                    f.push(("c26/entry-revived-without-being-asked-for".into(), format!("{x} after revive of {targets:?}")));
+                }
+                // direct memberships of groups that still exist come back
+                for g in mon::uuids_of(&prev.entries[x], "recycled_directmemberof") {
+                    let Some(ge) = now.entries.get(&g) else { continue };
+                    if !srv::is_live(ge) || srv::dump_classes(ge).iter().any(|c| c == "dyngroup") {
+                        continue;
+                    }
+                    acc.count("lifecycle.membership_to_restore");
+                    if revived.len() >= 2 {
+                        acc.count("lifecycle.membership_to_restore_in_multi_entry_revive");
+                    }
+                    if !mon::uuids_of(ge, "member").contains(x) {
+                        f.push(("c26/direct-membership-not-restored-on-revive".into(), format!("{x} was a direct member of live group {g} when deleted; after the revive of {targets:?} the group does not list it")));
+                    }
+                }
+                // cascade-deleted dependents come back
+                for (cu, ce) in &prev.entries {
+                    if srv::is_recycled(ce) && srv::dump_strs(ce, "cascade_deleted").iter().any(|s| s == &x.to_string()) {
+                        acc.count("lifecycle.dependent_to_restore");
+                        if state(now, cu) != "live" {
+                            f.push(("c26/dependent-not-revived-with-its-owner".into(), format!("dependent {cu} is {} after {x} was revived", state(now, cu))));
+                        }
+                    }
+                }
+            }
+            if rec.ok && rec.changed {
+                for t in &targets {
+                    if state(prev, t) == "recycled" && state(now, t) != "live" {
+                        f.push(("c26/revived-entry-not-live".into(), format!("{t} is {}", state(now, t))));
+                    }
+                }
+            }
+            for t in &targets {
+                if state(prev, t) == "tombstone" && state(now, t) == "live" {
+                    f.push(("c26/tombstone-revived".into(), format!("{t}")));
+                }
             }
         }
         Op::PurgeRecycled { .. } if rec.ok => {
@@ -184,7 +209,7 @@ pub fn c26(args: Args) {
     let mut run = Run::new(args.clone(), "exploration",
         "random delete/revive/purge histories over users, groups, service accounts and certificate entries that depend on a user, with simulated time advanced by amounts around the 7-day retention and changelog windows; after every operation a per-entry state machine is checked against the dumps before/after (delete -> recycled incl. cascade, revive only from recycled and restores direct memberships of still-live groups and cascade-deleted dependents, purge tombstones only entries recycled longer than the retention period, tombstones reaped only after the changelog window, nothing returns to live without a revive) and visibility is probed through real searches as a recycle-bin admin; non-trivial = history with an effective delete followed by an accepted revive or by a purge that tombstoned something; distinct by full op list");
     let prof = Profile {
-        replicas_min: 1, replicas_max: 1, file_backed: false, ops_min: 25, ops_max: 70, prefill: 0, long_gaps_when_replicated: false, level: kanidmd_lib::constants::DOMAIN_TGT_LEVEL, unique_names: false, home_creates: false, skewed_quarters: 0, late_joiner: false,
+        replicas_min: 1, replicas_max: 1, file_backed: false, ops_min: 25, ops_max: 70, prefill: 0, long_gaps_when_replicated: false, level: kanidmd_lib::constants::DOMAIN_TGT_LEVEL, unique_names: false, home_creates: false, skewed_quarters: 0, late_joiner: false, revive_pairs: true,
         pop: Pop { persons: 3, services: 1, groups: 3, dyngroups: 0, oauths: 0, certs: 3, names: 6 },
         w: Weights { create: 34, add_member: 16, rem_member: 3, rename: 3, set_desc: 3, delete: 16, revive: 14, purge_recycled: 8, purge_tombstones: 6, advance_small: 4, advance_big: 14, abort: 2, ..Default::default() },
     };
@@ -197,7 +222,18 @@ pub fn c26(args: Args) {
         after_op_async: &|w, rec| Box::pin(async move { visibility(w, rec).await }),
         at_end_async: &|_w| Box::pin(async move { Vec::new() }),
     }));
-    for k in ["lifecycle.delete_of_live", "lifecycle.cascade_delete", "lifecycle.revive_accepted_from_recycled", "lifecycle.membership_to_restore", "lifecycle.dependent_to_restore", "lifecycle.purge_tombstoned", "lifecycle.purge_kept", "lifecycle.tombstone_reaped", "lifecycle.tombstone_kept", "lifecycle.revive_of_tombstone_refused"] {
+    // revive-dense: no purges, many memberships, deletes and revives (a third naming two entries), so
+    // that one request brings back several entries that shared a still-live group
+    let prof_dense = Profile {
+        pop: Pop { persons: 3, services: 0, groups: 2, dyngroups: 0, oauths: 0, certs: 3, names: 8 },
+        w: Weights { create: 30, add_member: 34, rem_member: 2, delete: 18, revive: 20, advance_small: 2, abort: 1, ..Default::default() },
+        ops_min: 30, ops_max: 70, ..prof
+    };
+    run_histories_ext(&mut run, &args, 1026, args.tier.pick(250, 4000), &prof_dense, &hooks, Some(&Ext {
+        after_op_async: &|w, rec| Box::pin(async move { visibility(w, rec).await }),
+        at_end_async: &|_w| Box::pin(async move { Vec::new() }),
+    }));
+    for k in ["lifecycle.delete_of_live", "lifecycle.cascade_delete", "lifecycle.revive_accepted_from_recycled", "lifecycle.membership_to_restore", "lifecycle.dependent_to_restore", "lifecycle.several_entries_revived_by_one_request", "lifecycle.membership_to_restore_in_multi_entry_revive", "lifecycle.purge_tombstoned", "lifecycle.purge_kept", "lifecycle.tombstone_reaped", "lifecycle.tombstone_kept", "lifecycle.revive_of_tombstone_refused"] {
         let ok = run.acc.get(k) > 0;
         run.require(ok, &format!("{k} never observed"));
     }
@@ -211,7 +247,7 @@ pub fn c09(args: Args) {
     run.assume("a refresh replaces the whole content of the refreshed replica by design: deletions known only to that replica are lost with it and are not judged");
     run.assume("every object is created at most once per history, so a uuid that is live after its deletion can only have been resurrected");
     let prof = Profile {
-        replicas_min: 2, replicas_max: 3, file_backed: false, ops_min: 15, ops_max: 60, prefill: 0, long_gaps_when_replicated: true, level: kanidmd_lib::constants::DOMAIN_TGT_LEVEL, unique_names: true, home_creates: true, skewed_quarters: 0, late_joiner: false,
+        replicas_min: 2, replicas_max: 3, file_backed: false, ops_min: 15, ops_max: 60, prefill: 0, long_gaps_when_replicated: true, level: kanidmd_lib::constants::DOMAIN_TGT_LEVEL, unique_names: true, home_creates: true, skewed_quarters: 0, late_joiner: false, revive_pairs: false,
         pop: Pop { persons: 3, services: 1, groups: 3, dyngroups: 0, oauths: 0, certs: 0, names: 6 },
         w: Weights { create: 30, set_desc: 14, rename: 4, add_member: 10, rem_member: 3, delete: 14, purge_recycled: 6, purge_tombstones: 6, advance_small: 6, advance_big: 10, repl: 22, abort: 1, ..Default::default() },
     };
